@@ -68,6 +68,7 @@ class Server(Generic[_Request]):
             )
         self._loop = asyncio.get_running_loop()
         self._connections: dict[RequestHandler[_Request], asyncio.Transport] = {}
+        self._closing = False
         self._kwargs = kwargs
         self.requests_count = 0
         self.request_handler = handler
@@ -82,6 +83,11 @@ class Server(Generic[_Request]):
         self, handler: RequestHandler[_Request], transport: asyncio.Transport
     ) -> None:
         self._connections[handler] = transport
+        if self._closing:
+            # Accepted before the sites were stopped but established (e.g. TLS
+            # handshake completed) after the shutdown began: do not serve it.
+            handler.close()
+            transport.close()
 
     def connection_lost(
         self, handler: RequestHandler[_Request], exc: BaseException | None = None
@@ -114,6 +120,7 @@ class Server(Generic[_Request]):
         )
 
     def pre_shutdown(self) -> None:
+        self._closing = True
         for conn in self._connections:
             conn.close()
 
